@@ -17,16 +17,33 @@ pub(crate) mod verif_ref {
         let mut v = n;
         let mut i = 0;
         while i < 19 {
-            let low = (v % 128) as u8;
-            v = v / 128;
+            let low = (v & 0x7f) as u8; // least significant seven data bits first
+            v >>= 7;
+            if v == 0 {
+                out[i] = low; // last byte: continuation flag clear
+                return i + 1;
+            }
+            out[i] = low | 0x80; // continuation flag set
+            i += 1;
+        }
+        19
+    }
+
+    /// same, for values of at most 64 bits (at most 10 bytes) - cheaper for the model checker
+    pub fn ref_enc64(n: u64, out: &mut [u8; 10]) -> usize {
+        let mut v = n;
+        let mut i = 0;
+        while i < 10 {
+            let low = (v & 0x7f) as u8;
+            v >>= 7;
             if v == 0 {
                 out[i] = low;
                 return i + 1;
             }
-            out[i] = low + 128;
+            out[i] = low | 0x80;
             i += 1;
         }
-        19
+        10
     }
 
     /// zig-zag: n >= 0 -> 2n ; n < 0 -> -2n - 1   (as a `bits`-wide unsigned)
